@@ -627,6 +627,8 @@ var grammarOps = []struct {
 	{"same-file-twice", 3, opSameFileTwice},
 	{"shuffle", 3, opShuffle},
 	{"truncate", 5, opTruncate},
+	{"numeric-boundary", 16, opNumericBoundary},
+	{"rejected-late-text", 12, opRejectedLate},
 }
 
 // mutateSet applies 1–3 grammar-aware operators to a copy of the set.
